@@ -31,10 +31,7 @@ def stream_pol(eng, selfv, args, kwargs, st, node):
     return [(st, V('obj', oid='param-stream'))]
 
 
-def counter_pol(eng, selfv, args, kwargs, st, node):
-    n = eng.fresh('count', z3.IntSort())
-    st.pc.append(n >= 0)
-    return [(st, V('seq', extra={'len': n, 'get': (lambda eng, i, st_: vint(i))}))]
+from vf.contracts.seq_common import counter_pol, counts, COUNT
 
 
 def since(trace):
@@ -53,7 +50,7 @@ def remember(eng, st):
 def step_inv(op):
     def inv(c, L):
         ev = since(c.trace)
-        if ev is None:                       # loop entry: the first value is `start`
+        if L.phase == 'entry':               # loop entry: the first value is `start`
             return L.cur == c.pre.self.start
         if not ev:
             return z3.BoolVal(True)          # loop head (assumed)
@@ -79,7 +76,7 @@ for cls, par, op in (('Pseries', 'step', lambda a, b: a + b), ('Pgeom', 'grow', 
              params={'self': 'self', 'inval': 'obj'},
              ensures=[('ends-quietly-when-the-parameter-stream-ends', no_yield_after_exhaustion)],
              fields={cls: {'start': 'real', par: 'obj', 'length': 'obj'}},
-             loops={0: Loop(inv=step_inv(op), kinds={'cur': 'real', 'inval': 'obj', 'outval': 'real',
+             loops={0: Loop(inv=step_inv(op), over=counts('length'), kinds={'cur': 'real', 'inval': 'obj', 'outval': 'real',
                                                     'stepval': 'real', 'growval': 'real', '_': 'int'},
                             havoc_hook=remember)},
              hooks={'getattr': h_getattr},
